@@ -461,7 +461,11 @@ def _analyze_simple_command(
     #    first: `sh -c 'cmd' -h` runs cmd, it is not a help query)
     handler = get_handler(base)
     result = handler.classify(HandlerContext(tokens, cwd=cwd)) if handler else None
-    if _is_version_or_help(tokens) and not (result and result.action == "delegate"):
+    if (
+        _is_version_or_help(tokens)
+        and not (result and result.action == "delegate")
+        and not getattr(handler, "HANDLES_HELP", False)
+    ):
         return Decision("allow", f"{base} --help")
 
     # 5. CLI-specific handlers
